@@ -66,22 +66,34 @@ def charsFix (s : Str) : Str :=
        | c :: r => if c.isAlpha then (c :: r).map sub else '&' :: (c :: r).map sub)
 
 /-- One sibling as `make_valid` sees it: `.name`, `data.get("EDIF.identifier")`, `EDIF.rename`.
-    `assigned` is model book-keeping: the identifier was given by this pre-pass. -/
+    `bits`: for a cable that the writer emits wire by wire (`len(wires) > 1 or is_array`) the wire
+    indices `lower_index .. lower_index + len(wires) - 1`; `[]` for everything else (written under
+    its own identifier).  `assigned` is model book-keeping: the identifier was given by this pre-pass. -/
 structure Sib where
   name : Str
   ident : Option Str := none
   rename : Bool := false
   assigned : Bool := false
+  bits : List Nat := []
   deriving Repr, DecidableEq
 
-/-- `_conflicts_good(obj, cand, objects)` where `others` = `objects` without `obj`
-    (repaired: both comparisons case-folded). -/
-def conflictsGood (cand : Str) (others : List Sib) : Bool :=
-  others.all fun e =>
-    !(lower e.name == cand) &&
+/-- `cable["EDIF.identifier"] + "_" + str(index) + "_"` (`_output_name_of_cable_wire_`) -/
+def bitIdent (id : Str) (i : Nat) : Str := id ++ ['_'] ++ Nat.toDigits 10 i ++ ['_']
+
+/-- `_written_forms(element, identifier)`: every identifier the writer emits for the element -/
+def forms (bits : List Nat) (id : Str) : List Str := id :: bits.map (bitIdent id)
+
+/-- the lower-cased strings a candidate is compared with for one sibling (`theirs`) -/
+def theirForms (e : Sib) : List Str :=
+  lower e.name ::
     (match e.ident with
-     | none => true
-     | some i => !(lower i == cand))
+     | none => []
+     | some i => (forms e.bits i).map lower)
+
+/-- `_conflicts_good(obj, cand, objects)` where `others` = `objects` without `obj` and `bits` are
+    `obj`'s wire indices: no form of the candidate equals any form of any sibling. -/
+def conflictsGood (bits : List Nat) (cand : Str) (others : List Sib) : Bool :=
+  others.all fun e => (forms bits cand).all fun m => !(theirForms e).contains m
 
 /-- the new candidate built inside `_conflicts_fix` (before `_length_fix`). -/
 def bump (c : Str) : Str :=
@@ -90,30 +102,33 @@ def bump (c : Str) : Str :=
   | some ds =>
       c.take (c.length - (ds.length + 1)) ++ Nat.toDigits 10 (Nat.ofDigitChars 10 ds 0 + 1) ++ ['_']
 
-/-- `_conflicts_fix`: the Python recursion, with fuel.  Second component: the recursion ended
-    because a conflict-free candidate was found (`finished`). -/
-def conflictsFix (others : List Sib) : Nat → Str → Str × Bool
-  | 0, ident => (ident, conflictsGood (lower ident) others)
+/-- `_conflicts_fix`: the Python loop, with fuel.  Second component: the loop ended because a
+    conflict-free candidate was found (`finished`). -/
+def conflictsFix (bits : List Nat) (others : List Sib) : Nat → Str → Str × Bool
+  | 0, ident => (ident, conflictsGood bits (lower ident) others)
   | fuel + 1, ident =>
       let l := lower ident
-      if conflictsGood l others then (ident, true)
-      else conflictsFix others fuel (lengthFix (bump l))
+      if conflictsGood bits l others then (ident, true)
+      else conflictsFix bits others fuel (lengthFix (bump l))
 
-/-- fuel that is always enough (theorem `conflictsFix_finished`). -/
-def fuelFor (others : List Sib) : Nat := 2 * others.length + 1
+/-- fuel that is always enough (theorem `conflictsFix_finished`): every string of `theirForms` can
+    be hit by at most `1 + |bits|` different candidates. -/
+def fuelFor (bits : List Nat) (others : List Sib) : Nat :=
+  (others.flatMap theirForms).length * (1 + bits.length) + 1
 
-/-- `make_valid(obj, objects)`; `name = obj.name`, `others` = the other elements of `objects`. -/
-def makeValidF (name : Str) (others : List Sib) : Str × Bool :=
-  conflictsFix others (fuelFor others) (charsFix (lengthFix name))
+/-- `make_valid(obj, objects)`; `name = obj.name`, `bits` = `obj`'s wire indices, `others` = the other
+    elements of `objects`. -/
+def makeValidF (bits : List Nat) (name : Str) (others : List Sib) : Str × Bool :=
+  conflictsFix bits others (fuelFor bits others) (charsFix (lengthFix name))
 
-def makeValid (name : Str) (others : List Sib) : Str := (makeValidF name others).1
+def makeValid (bits : List Nat) (name : Str) (others : List Sib) : Str := (makeValidF bits name others).1
 
 /-- `_add_rename_property(obj, namespace_list, names)` for a named object. -/
 def assignOne (x : Sib) (others : List Sib) : Sib :=
   match x.ident with
   | some _ => x
   | none =>
-      let id := makeValid x.name others
+      let id := makeValid x.bits x.name others
       { x with ident := some id, rename := x.rename || (id != x.name), assigned := true }
 
 /-- the loop `for x in namespace_list: _add_rename_property(x, namespace_list, names)`:
@@ -123,6 +138,28 @@ def assignGo : List Sib → List Sib → List Sib
   | done, x :: rest => assignGo (done ++ [assignOne x (done ++ rest)]) rest
 
 def assignAll (l : List Sib) : List Sib := assignGo [] l
+
+/-- the net identifiers the writer emits for the cables of one definition (`_output_cable_`):
+    the cable's identifier, or one `bitIdent` per wire. -/
+def emittedNetIdents (l : List Sib) : List Str :=
+  l.flatMap fun s =>
+    match s.ident with
+    | none => []
+    | some i => if s.bits.isEmpty then [i] else s.bits.map (bitIdent i)
+
+/-- what the reader makes of a name written by `nameString` (`parse_nameDef` / `parse_rename`:
+    identifier up to the blank, then the string token between the next two `"`):
+    `(EDIF.identifier, name)`. -/
+def readName (t : Bool × Str) : Option (Str × Str) :=
+  if !t.1 then some (t.2, t.2)
+  else
+    let rest := t.2.drop 7
+    let id := rest.takeWhile (· != ' ')
+    match rest.dropWhile (· != ' ') with
+    | ' ' :: '"' :: q =>
+        let nm := q.takeWhile (· != '"')
+        if q.dropWhile (· != '"') == ['"'] then some (id, nm) else none
+    | _ => none
 
 /-- `ComposeEdif._get_name_string_(obj)` for a named object that has an identifier: `(rename?, text)`;
     the text is the identifier itself, or `rename <identifier> "<original name>"`. -/
@@ -139,7 +176,7 @@ def assignGoFinished : List Sib → List Sib → Bool
   | done, x :: rest =>
       (match x.ident with
        | some _ => true
-       | none => (makeValidF x.name (done ++ rest)).2) &&
+       | none => (makeValidF x.bits x.name (done ++ rest)).2) &&
       assignGoFinished (done ++ [assignOne x (done ++ rest)]) rest
 
 end Spydr.Names
